@@ -110,6 +110,24 @@ def generate(g, tier):
             files = {P('main'): f'REPEAT 2\n    START a\nSTART a\nSTRING end', P('a'): 'START b\nSTRING in-a', P('b'): 'STRING in-b'}
             cases.append(dict(op='compile_file', file=P('main'), files=files,
                               meta=dict(family='history-none', exp=['ok', ['STRING in-b', 'STRING in-a'] * 3 + ['STRING end']], names=None)))
+    # functions that cross files: a function of a file that is still being compiled, called to completion from a file it
+    # imported, leaves that first file live; a function body runs as the file that DEFINED it (the latest definition's file)
+    for d in ('proj', 'proj/sub'):
+        P = lambda n: f'{d}/{n}.txt'
+        files = {P('a'): 'FUNC hello\n    STRING hi\nSTART b', P('b'): 'RUN hello\nSTART a'}
+        cases.append(dict(op='compile_file', file=P('a'), files=files, meta=dict(family='func-live', exp=['cycle', None], names=None, chainfiles=[P('a'), P('b')])))
+        files = {P('a'): 'FUNC hello\n    STRING hi\nVAR n 0\nSTART b', P('b'): 'RUN hello\nRUN hello\nIF n == 0\n    VAR n 1\n    START a'}
+        cases.append(dict(op='compile_file', file=P('a'), files=files, meta=dict(family='func-live-guarded', exp=['cycle', None], names=None, chainfiles=[P('a'), P('b')])))
+        base = {P('main'): 'START a\nSTART b\nRUN go\nSTRING end', P('a'): 'FUNC go\n    STRING a-go\nSTRING a-top', P('b'): 'FUNC go\n    START c\nSTRING b-top'}
+        cases.append(dict(op='compile_file', file=P('main'), files=dict(base, **{P('c'): 'START a\nSTRING c-top'}),
+                          meta=dict(family='func-file-diamond', exp=['ok', ['STRING a-top', 'STRING b-top', 'STRING a-top', 'STRING c-top', 'STRING end']], names=None)))
+        cases.append(dict(op='compile_file', file=P('main'), files=dict(base, **{P('c'): 'START b\nSTRING c-top'}),
+                          meta=dict(family='func-file-cycle', exp=['cycle', None], names=None, chainfiles=[P('main'), P('b'), P('c')])))
+        # the same name defined in two files with the same parameters; called after each import
+        files = {P('main'): 'START a\nRUN go\nSTART b\nRUN go\nSTRING end', P('a'): 'FUNC go\n    START leaf\nSTRING a-top', P('b'): 'FUNC go\n    START main2\nSTRING b-top',
+                 P('leaf'): 'STRING leaf', P('main2'): 'STRING main2\nSTART a'}
+        cases.append(dict(op='compile_file', file=P('main'), files=files,
+                          meta=dict(family='func-file-twice', exp=['ok', ['STRING a-top', 'STRING leaf', 'STRING b-top', 'STRING main2', 'STRING a-top', 'STRING end']], names=None)))
     return cases
 
 
